@@ -3,6 +3,9 @@ package sim
 import (
 	"fmt"
 	"math/big"
+	"sort"
+
+	sdk "github.com/cosmos/cosmos-sdk/types"
 )
 
 // C06: admission (CheckTx code 0) of a transaction that would execute WRKChain /
@@ -195,14 +198,34 @@ func c06Probe(w *World, bt *BuiltTx) {
 			add(v)
 		}
 	}
+	if w.S.MinGasPrices != "" {
+		// the node's own mempool policy (minimum gas price x gas limit) may be what refused the exact fee: offer
+		// exactly that amount, which is more than the operations cost
+		if prices, err := sdk.ParseDecCoins(w.S.MinGasPrices); err == nil {
+			gas := bt.Tx.Gas
+			if gas == 0 {
+				gas = DefaultGas
+			}
+			for d := range exact {
+				need := prices.AmountOf(d).MulInt(sdk.NewIntFromUint64(gas)).Ceil().RoundInt().BigInt()
+				if need.Cmp(total) > 0 {
+					add(need)
+					w.Class("c06.probe-at-node-min-gas-fee")
+				}
+			}
+		}
+	}
 	w.Notes["c06.probing"] = true
 	defer delete(w.Notes, "c06.probing")
-	n := 0
+	keys := make([]string, 0, len(cands))
 	for c := range cands {
-		if n >= 12 {
+		keys = append(keys, c)
+	}
+	sort.Slice(keys, func(i, j int) bool { return parseBig(keys[i]).Cmp(parseBig(keys[j])) > 0 })
+	for n, c := range keys {
+		if n >= 14 {
 			break
 		}
-		n++
 		t := *bt.Tx
 		t.Ops = append([]Op{}, bt.Tx.Ops...)
 		t.Fee = FeeSpec{Mode: FeeLiteral, Amt: c}
